@@ -40,3 +40,10 @@ PLAN = {
     "C12": list(_KZ),
     "C04": list(_KZ),
 }
+# kuznyechik: what the W harnesses abstract / assume (each harness' desc= repeats its own part)
+_KZ_ASSUME = [
+    "kuznyechik: key schedule (kuz_*_keys: real expansion == oracle key schedule for all 2^256 keys, L S one uninterpreted function, the oracle's C_i from a compile-time table tied to c() by kuz_oracle_consts) and encryption / decryption (kuz_*_rk*: arbitrary round keys, S and L uninterpreted mutually inverse pairs) are separate queries; conformance for all keys is their composition",
+    "kuznyechik (sse2, big_soft): the decryption W harnesses assume, on the uninterpreted L^-1, the eight instances L^-1(a ^ K) == L^-1(a) ^ L^-1(K) that the pre-transformed decryption keys rely on (kz_common::lin_instances); the lemma -- the oracle's L and L^-1 are GF(2)-linear for all 2^256 pairs -- is proved by kuz_lin_mul, kuz_lin_lfunc, kuz_lin_l / kuz_lin_linv (each level with the level below uninterpreted inside the oracle and its instances assumed)",
+    "kuznyechik leaves: sse2 transform == L S / L^-1 S^-1 is (rows of the real tables == oracle, kuz_leaf_rows) + (data flow with the load intrinsic uninterpreted, kuz_leaf_transform_flow) + linearity, composed outside the solver; big_soft transform: rows (kuz_soft_leaf_rows) + single-octet words at one position per table (kuz_soft_leaf_tf_one) + linearity + inspection of the three-line accumulation loop (the 128-bit data-flow query does not fit in memory for this back end); compact_soft lsx / lsx_inv: one-step lemma for all states and step indices (kuz_compact_leaf_lstep) + composition with l_step and the oracle's l_func uninterpreted",
+]
+ASSUMPTIONS = {p: list(_KZ_ASSUME) for p in ("C07", "C01", "C03", "C12")}
